@@ -747,6 +747,19 @@ pub fn run(input: &str, output: &str, opts: Opts) -> std::io::Result<i32> {
     // the collector thread, if any, starts right inside set_reporter
     std::thread::sleep(Duration::from_millis(20));
     let sr_threads = os_threads() as i64 - threads_before as i64;
+    // compiled out, flush() has nothing to run a cycle for: thread ids handed out while it is called
+    // three times (a helper thread lives too briefly to be seen in /proc)
+    let flush_threads = if opts.disabled {
+        let tid = |t: std::thread::ThreadId| format!("{t:?}").trim_start_matches("ThreadId(").trim_end_matches(')').parse::<i64>().unwrap_or(0);
+        let a = std::thread::spawn(|| std::thread::current().id()).join().unwrap();
+        fastrace::flush();
+        fastrace::flush();
+        fastrace::flush();
+        let b = std::thread::spawn(|| std::thread::current().id()).join().unwrap();
+        tid(b) - tid(a) - 1
+    } else {
+        0
+    };
     std::panic::set_hook(Box::new(|_| {}));
 
     let (tx, rx) = mpsc::channel::<Stop>();
@@ -786,7 +799,7 @@ pub fn run(input: &str, output: &str, opts: Opts) -> std::io::Result<i32> {
         s.acc.lock().unwrap().clear();
         let foreign: Vec<usize> = verif::collector_stats().active.iter().map(|a| rt::cid_out(a.collect_id)).collect();
         let eff = |v: usize, d: usize| if v == 0 { d } else { v };
-        emit(json!({"ev":"reset","run":id,"cfg":{"cancelable":opts.cancelable,"enabled":!opts.disabled,"ready":opts.ready,"sr_threads":sr_threads,
+        emit(json!({"ev":"reset","run":id,"cfg":{"cancelable":opts.cancelable,"enabled":!opts.disabled,"ready":opts.ready,"sr_threads":sr_threads,"flush_threads":flush_threads,
             "queue":eff(opts.queue, 10240),"stack":eff(opts.stack, 4096),"ring":eff(opts.ring, 10240),"foreign":foreign}}));
         if opts.churn {
             // the same behaviours over and over: the validator watches the bytes allocated at quiescence
